@@ -182,6 +182,12 @@ class ModelObj:
         return f"ModelObj({self.kind})"
 
 
+class GenTuple(tuple):
+    """the (eagerly evaluated) elements of a generator expression: a tuple for every consumer that iterates it, and
+    an ITERATOR for next(): `pos` is the number of elements already taken"""
+    pos = 0
+
+
 class TrueDiv(L.SymVal):
     """a / b on symbolic ints (b != 0 established at the division); only int(a / b) is supported: truthiness,
     equality and every other use are outside the model (SymVal: the generic rules answer Undecided)"""
@@ -1031,6 +1037,21 @@ class Frame:
             self.ctx.setattr(self.ev(t.value), t.attr, v)
         elif isinstance(t, (ast.Tuple, ast.List)):
             items = iterate(self.ctx, v)
+            stars = [i for i, e in enumerate(t.elts) if isinstance(e, ast.Starred)]
+            if len(stars) > 1:
+                raise Undecided("several starred targets")
+            if stars:
+                # a, *rest, z = items : rest is a new list of whatever is left (ValueError if too few values)
+                k = stars[0]
+                after = len(t.elts) - k - 1
+                if len(items) < len(t.elts) - 1:
+                    raise PyRaise(ValueError, "unpack")
+                for tt, vv in zip(t.elts[:k], items[:k]):
+                    self.assign(tt, vv)
+                self.assign(t.elts[k].value, self.ctx.new_list(list(items[k:len(items) - after])))
+                for tt, vv in zip(t.elts[k + 1:], items[len(items) - after:] if after else []):
+                    self.assign(tt, vv)
+                return
             if len(items) != len(t.elts):
                 raise PyRaise(ValueError, "unpack")
             for tt, vv in zip(t.elts, items):
@@ -1314,6 +1335,14 @@ class Frame:
                 if v.format_spec is not None or v.conversion not in (-1, 115):
                     raise Undecided("f-string format spec")
                 parts.append(to_str(self.ctx, self.ev(v.value)))
+        if any(isinstance(x, L.SymVal) and not isinstance(x, (SStr, Dec, OStr)) for x in parts):
+            # a text-like symbolic value without a structured-string form (e.g. the opaque result of a summarised
+            # callee): the f-string is the concatenation of its pieces
+            parts = [x for x in parts if not (isinstance(x, str) and x == "")]
+            r = parts[0]
+            for x in parts[1:]:
+                r = binop(self.ctx, ast.Add(), r, x)
+            return r
         return mk_str(parts)
 
     def e_IfExp(self, e):
@@ -1420,7 +1449,15 @@ class Frame:
         kwargs = {}
         for k in e.keywords:
             if k.arg is None:
-                raise Undecided("**kwargs call")
+                d = self.ev(k.value)
+                dd = self.ctx.deref(d).d if isinstance(d, Ref) and isinstance(self.ctx.deref(d), HDict) else (d if isinstance(d, dict) else None)
+                if dd is None or not all(isinstance(x, str) for x in dd):
+                    raise Undecided("**kwargs call with a mapping of unknown shape")
+                for kk, vv in dd.items():
+                    if kk in kwargs:
+                        raise PyRaise(TypeError, "multiple values for keyword argument")
+                    kwargs[kk] = vv
+                continue
             kwargs[k.arg] = self.ev(k.value)
         return self.ctx.call_value(f, args, kwargs)
 
@@ -1529,7 +1566,7 @@ class Frame:
                 raise
         r = self._comp(e, elt)
         if isinstance(r, list):
-            return tuple(r)
+            return GenTuple(r)
         return r
 
     def e_DictComp(self, e):
@@ -1781,6 +1818,12 @@ def binop(ctx, op, a, b):
             return ZSeq(rep(ord(a), b), "str", z3.If(b > 0, b, 0), [("rep", ord(a), b)])
         raise Undecided("string repeated a symbolic number of times")
     # lists / tuples
+    if isinstance(op, ast.Mult) and (isinstance(a, Ref) or isinstance(b, Ref)):
+        lst, k = (a, b) if isinstance(a, Ref) else (b, a)
+        o = ctx.deref(lst)
+        if isinstance(o, HList) and o.base is None and isinstance(k, int) and not isinstance(k, bool):
+            return ctx.new_list(list(o.items) * k)
+        raise Undecided("list repeated a symbolic number of times")
     if isinstance(op, ast.Add) and (isinstance(a, Ref) or isinstance(b, Ref)):
         la = iterate(ctx, a) if isinstance(a, (Ref, list)) else None
         lb = iterate(ctx, b) if isinstance(b, (Ref, list)) else None
@@ -2135,6 +2178,8 @@ def to_str(ctx, v):
                     if nm in vars(k):
                         return ctx.call_value(vars(k)[nm], [v], {})
         raise Undecided("str() of heap value")
+    if isinstance(v, L.SymVal) and L.family(v) == "str":
+        return v                    # str(s) is s for a string
     if contains_sym(v):
         return Opaque("str of symbolic")
     return str(v)
